@@ -96,6 +96,42 @@ def escapeOffenders (gs : List GlobalVar) (cs : List Closure) : List String :=
   (gs.filter (fun g => !g.noSharedEscape)).map (fun g => g.pkg ++ "." ++ g.name) ++
   (cs.filter (fun c => !c.ok)).map (fun c => c.pkg ++ "." ++ c.func ++ " (closure)")
 
+/-! ### appends onto stored slices (round 3) -/
+
+inductive AppendHow where
+  | assignedBack   -- x.f = append(x.f, …): the object grows its own slice; the result is handed to nobody else
+  | copyOut        -- append(fresh, x.f...): the stored slice is only read, spread into a slice that is fresh in this function
+  | ontoShared     -- the result of append(x.f, …) / append(p, …) with p possibly aliasing x.f goes somewhere else: with spare
+                   -- capacity the new elements land in the stored slice's backing array, under every earlier result
+  deriving DecidableEq, Repr
+
+/-- one `append` call that touches a slice kept in a struct field or a package-level variable -/
+structure AppendRow where
+  pkg : String
+  func : String
+  operand : String      -- the stored slice as written (self.path, definition.BasePath …)
+  via : String := ""    -- the aliasing local, when the operand is not written in the call itself
+  how : AppendHow
+  deriving Repr
+
+/-- reviewed exceptions: (pkg, func, operand, reason) -/
+def reviewedAppends : List (String × String × String × String) :=
+  [("boltz", "NewBaseStore", "definition.BasePath",
+    "store construction (single goroutine, before the store is used); the only element ever appended at that position is the " ++
+    "constant IndexesBucket, so two stores built from one BasePath slice with spare capacity write the same value; the " ++
+    "entity path next to it is built by copyOut")]
+
+def AppendRow.ok (r : AppendRow) : Bool :=
+  r.how != .ontoShared || reviewedAppends.any (fun e => e.1 == r.pkg && e.2.1 == r.func && e.2.2.1 == r.operand)
+
+def noAppendOntoShared (rs : List AppendRow) : Bool := rs.all AppendRow.ok
+
+def appendOffenders (rs : List AppendRow) : List String :=
+  (rs.filter (fun r => !r.ok)).map (fun r => r.pkg ++ "." ++ r.func ++ ": append onto " ++ r.operand)
+
+def hasAppend (rs : List AppendRow) (pkg func operand : String) (h : AppendHow) : Bool :=
+  rs.any (fun r => r.pkg == pkg && r.func == func && r.operand == operand && r.how == h)
+
 def hasClosure (cs : List Closure) (pkg func : String) : Bool :=
   cs.any (fun c => c.pkg == pkg && c.func == func)
 
